@@ -340,7 +340,21 @@ def _nt(x: ast.AST) -> str:
 
 def _loop_vars(l: ast.For):
     """(index variable, element variable, iterable text) of `for i, e in enumerate(S)`,
-    `for e in S`, `for i in range(..)`"""
+    `for e in S`, `for i in range(..)`; S read through a local bound just before to a record entry
+    (`outs = line["outputs"]`) is that entry"""
+    i_, e_, src = _loop_vars0(l)
+    if src and src.isidentifier():
+        par = getattr(l, "_parent", None)
+        seq = next((getattr(par, f_) for f_ in ("body", "orelse") if isinstance(getattr(par, f_, None), list) and l in getattr(par, f_)), None)
+        if seq is not None:
+            defs = [s_ for s_ in seq[: seq.index(l)] if isinstance(s_, ast.Assign) and len(s_.targets) == 1 and src_of(s_.targets[0]) == src]
+            stores = [n for n in ast.walk(par) if isinstance(n, ast.Name) and n.id == src and isinstance(n.ctx, ast.Store)]
+            if len(defs) == 1 and len(stores) == 1 and isinstance(defs[0].value, ast.Subscript) and isinstance(defs[0].value.slice, ast.Constant):
+                src = src_of(defs[0].value)
+    return i_, e_, src
+
+
+def _loop_vars0(l: ast.For):
     it = l.iter
     if isinstance(it, ast.Call) and src_of(it.func) == "enumerate" and isinstance(l.target, ast.Tuple) and len(l.target.elts) == 2:
         return src_of(l.target.elts[0]), src_of(l.target.elts[1]), src_of(it.args[0])
@@ -382,7 +396,13 @@ def check_c(ck, repo):
             reg = [b for b in body if re.match(r"^\w+\[%s\] = " % re.escape(k), b)]
             if reg:
                 tab = reg[0].split("[")[0]
-                ok = reg == [f"{tab}[{k}] = f'sch{step}:f{{{c}}}'"] and any(b.endswith(f".append(f'<f{{{c}}}> {{{k}}}')") for b in body) and len(body) == 2
+                exact = reg == [f"{tab}[{k}] = f'sch{step}:f{{{c}}}'"]
+                ok = exact and any(b.endswith(f".append(f'<f{{{c}}}> {{{k}}}')") for b in body) and len(body) == 2
+                if not ok:
+                    # the port written with another index than the loop's own counter is wrong; any other
+                    # spelling (labels built in another pass, a hoisted prefix) is left to the rule by roles
+                    wrong = [b for b in reg if re.search(r"= f'sch[^']*:f\{", b) and not b.endswith(f":f{{{c}}}'")]
+                    ok = False if wrong else "other"
                 res.append((l, tab, ok, src))
             else:
                 # the registration exists but not as a plain statement of the loop body (under a
@@ -393,7 +413,10 @@ def check_c(ck, repo):
         return res
 
     p0 = port_loop(first, "0")
-    ck.verdict(len(p0) == 1 and p0[0][2], "C16.c", pd, "input schema: columns[col] = sch0:f{c}; label <f{c}>", "input column c is declared as port f{c} of sch0 and referred to by the same port", "the port declared for an input column and the port recorded for its edges differ")
+    if len(p0) == 1 and p0[0][2] == "other":
+        ck.unknown("C16.c", pd, "input schema: columns[col] = sch0:f{c}; label <f{c}>", "the ports of the input schema are registered in another spelling than `columns[col] = f'sch0:f{c}'` next to the label `<f{c}> col`")
+    else:
+      ck.verdict(len(p0) == 1 and p0[0][2] is True, "C16.c", pd, "input schema: columns[col] = sch0:f{c}; label <f{c}>", "input column c is declared as port f{c} of sch0 and referred to by the same port", "the port declared for an input column and the port recorded for its edges differ")
     tab = p0[0][1] if p0 else "columns"
     # --- classification of the statements of the step branch
     kinds = []
@@ -417,7 +440,10 @@ def check_c(ck, repo):
             body = [_nt(x) for x in ast.walk(s_) if isinstance(x, (ast.Assign, ast.Expr)) and not isinstance(getattr(x, "value", None), ast.Constant)]
             regs = port_loop([s_], f"{{{iv}}}")
             if regs:
-                kinds.append(("update-columns" if regs[0][2] and regs[0][3] == f"{lv}['outputs']" else "update-columns-bad", s_))
+                if regs[0][2] == "other":
+                    kinds.append(("update-columns-other", s_))
+                else:
+                    kinds.append(("update-columns" if regs[0][2] is True and regs[0][3] == f"{lv}['outputs']" else "update-columns-bad", s_))
             elif any(f"-> node{{{iv}}};" in b for b in body):
                 okin = src == f"{lv}['inputs']" and any(b == f"{x_.split(' = ')[0]} = {tab}.get({k}, {k})" for b in body for x_ in [b] if " = " in b and f"{tab}.get(" in b) and any(re.match(r"^\w+ = f'  \{(\w+)\} -> node\{%s\};'$" % re.escape(iv), b) for b in body)
                 kinds.append(("input-edges" if okin else "input-edges-bad", s_))
